@@ -72,6 +72,17 @@ def _pair_dest(F, L, o):
     return sn, pf, caps, off, var
 
 
+_prog = None
+
+
+def _program():
+    """all units, compiled WITHOUT the verification hooks: the same IR the FOLD engine rewrites (instruction names must agree)"""
+    global _prog
+    if _prog is None:
+        _prog = irf.Units(build.load_units(build.all_sources(), 'm2r', 'host', hooks=False))
+    return _prog
+
+
 def _kind(cal):
     if cal in CONTRACTS:
         return CONTRACTS[cal]
@@ -87,7 +98,7 @@ def _struct_of(ty):
 
 def enumerate_sites():
     """[(src, fname, callee, nth-of-callee-in-function, key, room, len operand, extra offset terms)]"""
-    P = wmw.program()
+    P = _program()
     sites = []
     for (un, fn), F in sorted(P.static.items()):
         src = F.file().replace(build.REPO + '/', '')
@@ -170,7 +181,7 @@ def enumerate_sites():
 
 def enumerate_stores():
     """stores through one variable-index GEP into a local array / array member: (index*scale + offset + store size) must stay inside"""
-    P = wmw.program()
+    P = _program()
     sites = []
     for (un, fn), F in sorted(P.static.items()):
         src = F.file().replace(build.REPO + '/', '')
